@@ -463,6 +463,176 @@ static void scen_c18(int histories, int ncmds) {
     for (int h = 0; h < histories; h++) iso_run(h, rnd64(), c18_history, &ncmds, 300);
 }
 
+/* =====================================================  C20  ===================================================== */
+/* abstract ops + observables; Model.Tpm12.Core predicts rc and output of every line */
+static Rsp c20_run(Buf *b, const char *label) {
+    b_put32(b, 2, (uint32_t)b->n);
+    if (iso_before(b->p, b->n)) { Rsp z; memset(&z, 0, sizeof z); z.rc = 0xFFFFFFFF; tr("skipped idx=%ld %s", g_iso->idx - 1, label); return z; }
+    Rsp r = run_raw(b->p, (uint32_t)b->n);
+    iso_after();
+    return r;
+}
+static void c20_obs(const char *name, const Rsp *r, const char *extra_fmt, ...) {
+    tr_begin("op name=%s loc=%d ret=%u rc=%u", name, g_locality, r->ret, r->rc);
+    if (extra_fmt) { va_list ap; va_start(ap, extra_fmt); fputc(' ', g_tr); vfprintf(g_tr, extra_fmt, ap); va_end(ap); }
+    trhex("out", r->len > 10 && r->rc == 0 ? r->p + 10 : NULL, r->len > 10 && r->rc == 0 ? r->len - 10 : 0);
+}
+static void c20_extend(Buf *b, uint32_t pcr, const uint8_t *d) {
+    t12_begin(b, T12_TAG0, T12_ORD_Extend); b_u32(b, pcr); b_bytes(b, d, 20);
+    Rsp r = c20_run(b, "extend"); if (r.rc == 0xFFFFFFFF && !r.len) return;
+    c20_obs("extend", &r, "pcr=%u", pcr); trhex("d", d, 20); tr_end();
+}
+static void c20_pcrread(Buf *b, uint32_t pcr) {
+    t12_begin(b, T12_TAG0, T12_ORD_PcrRead); b_u32(b, pcr);
+    Rsp r = c20_run(b, "pcrread"); if (r.rc == 0xFFFFFFFF && !r.len) return;
+    c20_obs("pcrread", &r, "pcr=%u", pcr); tr_end();
+}
+static void c20_pcrreset(Buf *b, const uint8_t *sel, int n) {
+    t12_begin(b, T12_TAG0, T12_ORD_PCR_Reset); b_u16(b, (uint16_t)n); b_bytes(b, sel, n);
+    Rsp r = c20_run(b, "pcrreset"); if (r.rc == 0xFFFFFFFF && !r.len) return;
+    c20_obs("pcrreset", &r, NULL); trhex("sel", sel, n); tr_end();
+}
+static void c20_sha(Buf *b, const char *name, uint32_t ord, int with_pcr, uint32_t pcr, const uint8_t *d, uint32_t n) {
+    t12_begin(b, T12_TAG0, ord);
+    if (with_pcr) b_u32(b, pcr);
+    if (ord != T12_ORD_SHA1Start) { b_u32(b, n); b_bytes(b, d, n); }
+    Rsp r = c20_run(b, name); if (r.rc == 0xFFFFFFFF && !r.len) return;
+    c20_obs(name, &r, "pcr=%u", pcr); trhex("d", d, n); tr_end();
+}
+static void c20_other(Buf *b) {            /* an unrelated ordinal between SHA-1 thread commands */
+    if (chance(50)) { t12_begin(b, T12_TAG0, T12_ORD_GetTicks); } else { t12_begin(b, T12_TAG0, T12_ORD_GetRandom); b_u32(b, 4); }
+    Rsp r = c20_run(b, "other"); if (r.rc == 0xFFFFFFFF && !r.len) return;
+    tr("op name=other loc=%d ret=%u rc=%u", g_locality, r.ret, r.rc);
+}
+static void c20_startup(Buf *b) {
+    t12_begin(b, T12_TAG0, T12_ORD_Startup); b_u16(b, 1);
+    Rsp r = c20_run(b, "startup"); if (r.rc == 0xFFFFFFFF && !r.len) return;
+    c20_obs("startup", &r, NULL); tr_end();
+}
+static void c20_estget(void) {
+    TPM_BOOL e = 0; TPM_RESULT ret = TPM_IO_TpmEstablished_Get(&e);
+    tr("op name=estget loc=%d ret=0 rc=%u out=%02x", g_locality, ret, e ? 1 : 0);
+}
+static void c20_rand_bytes(uint8_t *d, uint32_t n) {
+    int mode = rnd(8);
+    for (uint32_t i = 0; i < n; i++) d[i] = mode == 0 ? 0 : mode == 1 ? 0xff : (uint8_t)rnd64();
+}
+static void c20_sha_thread(Buf *b) {
+    static uint8_t d[8192];
+    c20_sha(b, "sha1start", T12_ORD_SHA1Start, 0, 0, NULL, 0);
+    int nup = rnd(5);
+    for (int i = 0; i < nup; i++) {
+        uint32_t n = 64 * rnd(chance(90) ? 6 : 63);
+        if (chance(5)) n = 1 + rnd(200);                         /* not a multiple of 64 (mostly) */
+        if (chance(2)) n = 64 * (63 + rnd(3));                   /* around maxNumBytes */
+        c20_rand_bytes(d, n);
+        if (chance(6)) c20_other(b);                              /* invalidates the thread */
+        if (chance(4)) c20_pcrread(b, rnd(24));                   /* so does a PCR read */
+        c20_sha(b, "sha1update", T12_ORD_SHA1Update, 0, 0, d, n);
+    }
+    uint32_t n = chance(92) ? rnd(65) : 65 + rnd(100);
+    c20_rand_bytes(d, n);
+    if (chance(5)) c20_other(b);
+    if (chance(50)) c20_sha(b, "sha1complete", T12_ORD_SHA1Complete, 0, 0, d, n);
+    else { if (chance(30)) g_locality = rnd(5); c20_sha(b, "sha1completeextend", T12_ORD_SHA1CompleteExtend, 1, chance(90) ? rnd(24) : 24 + rnd(10), d, n); }
+}
+static void c20_tis_hash(int complete) {
+    static uint8_t d[4096];
+    if (iso_before("TPM_IO_Hash_Start", 17)) return;
+    TPM_RESULT ret = TPM_IO_Hash_Start(); iso_after();
+    tr("op name=hashstart loc=%d ret=0 rc=%u out=-", g_locality, ret);
+    int nd = rnd(5);
+    for (int i = 0; i < nd; i++) {
+        uint32_t n = chance(80) ? rnd(200) : rnd(4096);
+        c20_rand_bytes(d, n);
+        if (iso_before("TPM_IO_Hash_Data", 16)) return;
+        ret = TPM_IO_Hash_Data(d, n); iso_after();
+        tr_begin("op name=hashdata loc=%d ret=0 rc=%u out=-", g_locality, ret); trhex("d", d, n); tr_end();
+    }
+    if (!complete) return;
+    if (iso_before("TPM_IO_Hash_End", 15)) return;
+    ret = TPM_IO_Hash_End(); iso_after();
+    tr("op name=hashend loc=%d ret=0 rc=%u out=-", g_locality, ret);
+}
+static void c20_history(int h, void *arg) {
+    int maxops = *(int *)arg;
+    Buf b = {0};
+    uint8_t d[20] = {0};
+    tpm12_fresh();
+    if (h % 3 == 2) TPMLIB_SetBufferSize(3072 + 64 * rnd(17), NULL, NULL); else TPMLIB_SetBufferSize(4096, NULL, NULL);
+    tr("power maxbuf=%u", tpm12_maxbuf());
+    if (h % 7 == 6) { c20_pcrread(&b, 0); c20_extend(&b, 0, d); if (chance(50)) c20_tis_hash(1); }   /* before Startup */
+    c20_startup(&b);
+    int n = 10 + rnd(maxops), tis_open = 0;
+    for (int i = 0; i < n; i++) {
+        if (chance(20)) g_locality = rnd(5);
+        switch (rnd(20)) {
+        case 0: case 1: case 2: case 3: case 4:
+            c20_rand_bytes(d, 20); c20_extend(&b, chance(92) ? rnd(24) : (chance(50) ? 24 + rnd(8) : (uint32_t)rnd64()), d); break;
+        case 5: case 6: case 7: c20_pcrread(&b, chance(92) ? rnd(24) : (chance(50) ? 24 : (uint32_t)rnd64())); break;
+        case 8: case 9: case 10: {
+            uint8_t sel[6] = {0}; int sz = chance(85) ? 3 : rnd(6);
+            switch (rnd(5)) {
+            case 0: if (sz == 3) sel[2] = (uint8_t)(1u << rnd(8)); break;                 /* one of 16..23 */
+            case 1: if (sz == 3) sel[2] = (uint8_t)rnd64(); break;                         /* several of 16..23 */
+            case 2: for (int k = 0; k < sz; k++) sel[k] = (uint8_t)rnd64(); break;         /* anything */
+            case 3: break;                                                                  /* nothing selected */
+            default: if (sz == 3) { sel[2] = (uint8_t[]){0x81, 0x01, 0x80, 0x60, 0x10, 0x1E}[rnd(6)]; } else if (sz) sel[0] = 1; break; }
+            c20_pcrreset(&b, sel, sz); break; }
+        case 11: case 12: case 13: case 14: c20_sha_thread(&b); break;
+        case 15:
+            if (!tis_open) { int complete = chance(85); c20_tis_hash(complete); tis_open = !complete; }
+            else {
+                if (iso_before("TPM_IO_Hash_End", 15)) break;
+                TPM_RESULT ret = TPM_IO_Hash_End(); iso_after(); tis_open = 0;
+                tr("op name=hashend loc=%d ret=0 rc=%u out=-", g_locality, ret);
+            }
+            c20_estget(); break;
+        case 16: {
+            if (iso_before("TPM_IO_TpmEstablished_Reset", 27)) break;
+            TPM_RESULT ret = TPM_IO_TpmEstablished_Reset(); iso_after();
+            tr("op name=estreset loc=%d ret=0 rc=%u out=-", g_locality, ret); c20_estget(); break; }
+        case 17: {  /* power cycle: permanent state from storage, PCRs back to their initial values */
+            if (!chance(30)) { c20_rand_bytes(d, 20); c20_extend(&b, 16 + rnd(8), d); break; }   /* MainInit is slow (self tests) */
+            TPMLIB_Terminate(); TPM_RESULT ret = TPMLIB_MainInit();
+            tr("restart ret=%u maxbuf=%u", ret, tpm12_maxbuf()); tis_open = 0;
+            if (ret != TPM_SUCCESS) { b_free(&b); return; }
+            if (chance(15)) c20_pcrread(&b, rnd(24));
+            c20_startup(&b); c20_estget(); break; }
+        case 18: {  /* suspend / resume through the three state blobs: nothing observable may change */
+            if (!chance(30)) { c20_pcrread(&b, 16 + rnd(8)); break; }
+            unsigned char *blob[3] = {0}; uint32_t len[3] = {0}; TPM_RESULT ret = 0;
+            enum TPMLIB_StateType ty[3] = {TPMLIB_STATE_PERMANENT, TPMLIB_STATE_VOLATILE, TPMLIB_STATE_SAVE_STATE};
+            for (int k = 0; k < 2; k++) ret |= TPMLIB_GetState(ty[k], &blob[k], &len[k]);
+            TPMLIB_Terminate();
+            for (int k = 0; k < 2; k++) ret |= TPMLIB_SetState(ty[k], blob[k], len[k]);
+            ret |= TPMLIB_MainInit();
+            for (int k = 0; k < 3; k++) free(blob[k]);
+            tr("resume ret=%u", ret);
+            if (ret != TPM_SUCCESS) { b_free(&b); return; }
+            break; }
+        default: c20_other(&b); break;
+        }
+    }
+    /* the error routes of the TIS interface put the TPM into the failed state: only at the end of a history */
+    if (h % 5 == 4) {
+        if (tis_open) { TPM_RESULT ret = TPM_IO_Hash_End(); tr("op name=hashend loc=%d ret=0 rc=%u out=-", g_locality, ret); }
+        c20_rand_bytes(d, 20);
+        if (chance(50)) { TPM_RESULT ret = TPM_IO_Hash_End(); tr("op name=hashend loc=%d ret=0 rc=%u out=-", g_locality, ret); }
+        else { TPM_RESULT ret = TPM_IO_Hash_Data(d, 20); tr_begin("op name=hashdata loc=%d ret=0 rc=%u out=-", g_locality, ret); trhex("d", d, 20); tr_end(); }
+        TPM_RESULT ret;
+        c20_pcrread(&b, 3); c20_rand_bytes(d, 20); c20_extend(&b, 3, d); c20_sha(&b, "sha1start", T12_ORD_SHA1Start, 0, 0, NULL, 0);
+        TPMLIB_Terminate(); ret = TPMLIB_MainInit();
+        tr("restart ret=%u maxbuf=%u", ret, tpm12_maxbuf());
+        if (ret == TPM_SUCCESS) { c20_startup(&b); c20_pcrread(&b, 3); c20_pcrread(&b, 17); }
+    }
+    for (uint32_t i = 0; i < 24; i++) c20_pcrread(&b, i);
+    b_free(&b);
+}
+static void scen_c20(int histories, int maxops) {
+    for (int h = 0; h < histories; h++) iso_run(h, rnd64(), c20_history, &maxops, 300);
+}
+
 /* =====================================================  replay  ===================================================== */
 /* `tpmdrv R12 0 quick <out> <replay file>`: re-executes the `fresh` / `cmd req=` / `restart` lines of a C18-style
  * history on the current tree and writes the answers in the same format.  VERIF_DEBUG_FROM=<n> switches the
